@@ -48,6 +48,10 @@ def make(name: str, *args):
 
     if name == "C04":
         return ConcatScenario("C04")
+    if name == "C10":
+        from .readonly import ReadOnlyScenario
+
+        return ReadOnlyScenario()
     if name == "C11":
         from .lifecycle import LifecycleScenario
 
